@@ -60,19 +60,19 @@ def SAll (h : List Sys) (c0 n : Nat) : Prop := ∀ m s, m ≤ n → h[m]? = some
 
 
 /-- the log of a commit event is a leader's log -/
-theorem Ev.leaderLog (H : Hyp2 cfg c0 h) {E : Ev} (hE : E.ok h) :
+theorem Ev.leaderLog (H : Hyp2w cfg c0 h) {E : Ev} (hE : E.ok h) :
     LeaderLog h c0 (E.nE + 1) E.t (EvF h c0 E) ∧ Has (EvF h c0 E) E.c E.t ∧ c0 < E.c := by
   obtain ⟨a, b, sta, stb, ha, hb, hla, hlb, hs, ht, hc, _, hg, _, _, hc0, hh, _⟩ := Ev.facts H hE
   exact ⟨⟨E.nE + 1, b, E.l, stb, Nat.le_refl _, hb, hlb, hs, ht, hg⟩, hh, hc0⟩
 
 /-- the end of a leader's ghost log is the end of its logical log -/
-theorem fl_last (H : Hyp2 cfg c0 h) {n : Nat} {s : Sys} (hn : h[n]? = some s) {v : Nat}
+theorem fl_last (H : Hyp2w cfg c0 h) {n : Nat} {s : Sys} (hn : h[n]? = some s) {v : Nat}
     {st : NState} (hv : s.node v = some st) :
     (FL h c0 st).lastIndex = st.raft.raftLog.abs.lastIndex :=
   ((ghost_inv H n s hn).node v st hv).log.last
 
 /-- two logs of the leader of one term hold the same entry wherever both reach -/
-theorem ll_eq (H : Hyp2 cfg c0 h) {N N' t : Nat} {L L' : LLog} (h1 : LeaderLog h c0 N t L)
+theorem ll_eq (H : Hyp2w cfg c0 h) {N N' t : Nat} {L L' : LLog} (h1 : LeaderLog h c0 N t L)
     (h2 : LeaderLog h c0 N' t L') {k : Nat} (hk : k ≤ L.lastIndex) (hk' : k ≤ L'.lastIndex) :
     L.entryAt k = L'.entryAt k := by
   obtain ⟨m, s, l, st, _, a2, a3, a4, a5, rfl⟩ := h1
@@ -81,7 +81,7 @@ theorem ll_eq (H : Hyp2 cfg c0 h) {N N' t : Nat} {L L' : LLog} (h1 : LeaderLog h
     (by rw [← fl_last H b2 b3]; exact hk')
 
 /-- a node's log that holds an entry of a leader's log at `c` equals that log up to `c` -/
-theorem eq_ll (H : Hyp2 cfg c0 h) {n : Nat} {s : Sys} (hn : h[n]? = some s) {v : Nat}
+theorem eq_ll (H : Hyp2w cfg c0 h) {n : Nat} {s : Sys} (hn : h[n]? = some s) {v : Nat}
     {st : NState} (hv : s.node v = some st) {N t : Nat} {L : LLog} (hL : LeaderLog h c0 N t L)
     {c τ : Nat} (h1 : Has (FL h c0 st) c τ) (h2 : Has L c τ) :
     EqUpTo (FL h c0 st) L c := by
@@ -92,7 +92,7 @@ theorem eq_ll (H : Hyp2 cfg c0 h) {n : Nat} {s : Sys} (hn : h[n]? = some s) {v :
 
 /-- **a leader of the event's term or a later one holds the committed entry** (for the event's own
 term: once its log reaches the index) -/
-theorem ll_has (H : Hyp2 cfg c0 h) {n : Nat} (S : SAll h c0 n) {τ : Nat} {L : LLog}
+theorem ll_has (H : Hyp2w cfg c0 h) {n : Nat} (S : SAll h c0 n) {τ : Nat} {L : LLog}
     (hL : LeaderLog h c0 n τ L) {E : Ev} (hE : E.ok h) (hle : E.t ≤ τ)
     (hreach : τ = E.t → E.c ≤ L.lastIndex) : Has L E.c E.t := by
   by_cases hlt : E.t < τ
@@ -108,7 +108,7 @@ theorem ll_has (H : Hyp2 cfg c0 h) {n : Nat} (S : SAll h c0 n) {τ : Nat} {L : L
 /-- **the logs of two commit events agree**: the log of a past event `E0` holds the entry of any event
 `E` that committed no more (`E.c ≤ E0.c`) — given, when `E0`'s term is the smaller one, that `E`'s term
 has been led by now -/
-theorem ctf (H : Hyp2 cfg c0 h) {n : Nat} (S : SAll h c0 n) {E0 E : Ev} (hE0 : E0.ok h)
+theorem ctf (H : Hyp2w cfg c0 h) {n : Nat} (S : SAll h c0 n) {E0 E : Ev} (hE0 : E0.ok h)
     (hE : E.ok h) (hpast : E0.nE < n) (hc : E.c ≤ E0.c)
     (hled : E0.t < E.t → ∃ L, LeaderLog h c0 n E.t L) : Has (EvF h c0 E0) E.c E.t := by
   obtain ⟨hl0, hh0, _⟩ := Ev.leaderLog H hE0
@@ -129,7 +129,7 @@ theorem ctf (H : Hyp2 cfg c0 h) {n : Nat} (S : SAll h c0 n) {E0 E : Ev} (hE0 : E
 
 
 /-- **the logs of two past commit events agree** up to the smaller commit index -/
-theorem ev_agree_past (H : Hyp2 cfg c0 h) {n : Nat} (S : SAll h c0 n) {E1 E2 : Ev} (h1 : E1.ok h)
+theorem ev_agree_past (H : Hyp2w cfg c0 h) {n : Nat} (S : SAll h c0 n) {E1 E2 : Ev} (h1 : E1.ok h)
     (h2 : E2.ok h) (hp1 : E1.nE < n) (hp2 : E2.nE < n) (hle : E1.c ≤ E2.c) :
     EqUpTo (EvF h c0 E1) (EvF h c0 E2) E1.c := by
   obtain ⟨l1, hh1, _⟩ := Ev.leaderLog H h1
@@ -140,7 +140,7 @@ theorem ev_agree_past (H : Hyp2 cfg c0 h) {n : Nat} (S : SAll h c0 n) {E1 E2 : E
   exact eq_ll H a2 a3 l2 hh1 this
 
 /-- two covered prefixes agree -/
-theorem covered_agree (H : Hyp2 cfg c0 h) {n : Nat} (S : SAll h c0 n) {m1 m2 c1 c2 t1 t2 : Nat}
+theorem covered_agree (H : Hyp2w cfg c0 h) {n : Nat} (S : SAll h c0 n) {m1 m2 c1 c2 t1 t2 : Nat}
     {g1 g2 : LLog} (hs1 : g1.snapIdx = c0) (hs2 : g2.snapIdx = c0)
     (h1 : Covered h c0 m1 c1 t1 g1) (h2 : Covered h c0 m2 c2 t2 g2) (hm1 : m1 ≤ n) (hm2 : m2 ≤ n) :
     ∀ k, k ≤ c1 → k ≤ c2 → g1.entryAt k = g2.entryAt k := by
